@@ -152,8 +152,24 @@ class _Sink(Foreign):
         return NotImplemented
 
 
+class NamedLookup(Foreign):
+    """a per-model dictionary of one additional parameter: lookup[name] is the symbolic value lookup_<key>(name)"""
+    def __init__(self, key):
+        self.key = key
+
+    def sl_getitem(self, interp, k, node):
+        k_ = interp._as_arr(k)
+        if isinstance(k_, Arr):
+            return Arr(k_.dims, mk_fn('lookup_' + self.key, P(k_.poly)), unit=num(1))
+        return NotImplemented
+
+    def sl_contains(self, interp, k):
+        return True
+
+
 class ConsumerHooks(Hooks):
-    def __init__(self, repo):
+    def __init__(self, repo, real_filter=False):
+        self.real_filter = real_filter
         self.captured, self.sink = [], _Sink()
         meta = Obj(repo.cls('fit_info', 'FitInfoMeta'), {'model_dir': 'DIR', 'filters': [], 'extinction_law': None})
         src = Obj(repo.cls('source.source', 'Source'), {'_valid': symarr('valid', ('w',), unit=num(1)), '_name': 'S'})
@@ -169,6 +185,8 @@ class ConsumerHooks(Hooks):
         q = fi.qual
         if q.endswith(':load_parameter_table'):
             return SymTable({'MODEL_NAME': symarr('tname', (T_,)), 'P1': symarr('p1', (T_,), unit=num(1))}, T_)
+        if q.endswith(':FitInfo.filter_table') and self.real_filter:
+            return NotImplemented
         if q.endswith(':FitInfo.filter_table'):
             self.captured.append((args, kwargs))
             return SymTable({'MODEL_NAME': symarr('fname', (R_,)), 'P1': symarr('fp1', (R_,), unit=num(1))}, R_)
@@ -465,7 +483,42 @@ def check_row_index_semantic(ctx):
     return decided
 
 
+def check_headers_semantic(ctx):
+    """(PERM-8) write_parameters and write_parameter_ranges interpreted with two additional per-model parameters given in non-alphabetical order and the real
+    filter_table: the k-th parameter name of the header line and the k-th parameter value of a row must belong to the same parameter."""
+    import re as _re
+    repo = ctx.repo
+    for module, func in (('write_parameters', 'write_parameters'), ('write_parameter_ranges', 'write_parameter_ranges')):
+        fi = ctx.fn(repo.func(module, func))
+        inst = '%s: each parameter value under its own header' % func
+        h = ConsumerHooks(repo, real_filter=True)
+        I = Interp(repo, h)
+        try:
+            r = I.call(fi, ['IN', 'OUT'], {'additional': {'zeta': NamedLookup('zeta'), 'alpha': NamedLookup('alpha')}})
+        except (AnalysisError, RecursionError) as ex:
+            r = Unk(str(ex)[:100])
+        texts = [w for w, c_ in h.sink.writes if isinstance(w, str)]
+        header = next((t for t in (''.join(texts)).split('\n') if 'p1' in t.lower().split() and ('zeta' in t.lower().split())), None)
+        names = [x for x in (header or '').lower().split() if x in ('p1', 'zeta', 'alpha')]
+        cols = []
+        for w, c_ in h.sink.writes:
+            if isinstance(w, Fmt):
+                for v in w.values:
+                    if isinstance(v, Arr):
+                        syms, fns_ = alg.leaf_syms(v.poly)
+                        src = [n_ for n_ in ('zeta', 'alpha') if 'lookup_' + n_ in fns_] + (['p1'] if 'p1' in syms and not any(f.startswith('lookup_') for f in fns_) else [])
+                        if len(src) == 1 and (not cols or cols[-1] != src[0]):
+                            cols.append(src[0])
+        cols = [c for k_, c in enumerate(cols) if c not in cols[:k_]]          # first appearance of each parameter among the values of a row
+        if isinstance(r, Unk) or header is None or sorted(names) != ['alpha', 'p1', 'zeta'] or sorted(cols) != ['alpha', 'p1', 'zeta'] or any(isinstance(w, Unk) for w, c_ in h.sink.writes):
+            ctx.undecided('PERM-8', inst, where(fi), 'listing with two additional parameters not modelled (header %s, value columns %s, result %r)' % (names, cols, r if isinstance(r, Unk) else None))
+        else:
+            ctx.expect(names == cols, 'PERM-8', inst, where(fi), 'header order %s == order of the values on a row' % names,
+                       'the header line lists the parameters as %s but the values on a row come in the order %s: values are printed under another parameter\'s name' % (names, cols), 'header-order')
+
+
 def check_rows(ctx):
+    check_headers_semantic(ctx)
     from ..roundtrip import SuspectCtx
     if not check_row_index_semantic(ctx):
         try:
@@ -508,6 +561,8 @@ WR = 'sedfitter/write_parameter_ranges.py'
 EP = 'sedfitter/extract_parameters.py'
 P1 = 'sedfitter/plot_params_1d.py'
 MUST_FIRE = [
+    ('additional parameters attached in sorted order while the headers list them in dictionary order', [(FI, "        for par in additional:\n", "        for par in sorted(additional):\n")]),
+    ('best value taken from the first fit with a defined value', [(WR, "(np.nanmin(info.av), info.av[0], np.nanmax(info.av))", "(np.nanmin(info.av), info.av[~np.isnan(info.av)][0], np.nanmax(info.av))")]),
     ('t.sort removed in write_parameters', [(WP, "    t.sort('MODEL_NAME')\n", "")]),
     ('strip+sort removed in extract_parameters (D9 reverted)', [(EP, "    t['MODEL_NAME'] = np.char.strip(t['MODEL_NAME'])\n    t.sort('MODEL_NAME')\n", "")]),
     ('nanmin <-> nanmax', [(WR, "(np.nanmin(info.av), info.av[0], np.nanmax(info.av))", "(np.nanmax(info.av), info.av[0], np.nanmin(info.av))")]),
@@ -528,6 +583,7 @@ MUST_FIRE = [
                                           "            for info in self._fits[1:]:\n                if info.meta != self._fits[0].meta:\n                    raise ValueError(\"The meta property of all FitInfo instances should match\")\n\n            self._fits = fits\n")]),
 ]
 MUST_SILENT = [
+    ('range minimum as the minimum of the defined values', [(WR, "(np.nanmin(info.av), info.av[0], np.nanmax(info.av))", "(info.av[~np.isnan(info.av)].min(), info.av[0], np.nanmax(info.av))")]),
     ('rank by scattering arange through the sorting permutation', [(FI, "index = np.argsort(np.argsort(self.model_name))", "by_name = np.argsort(self.model_name)\n        index = np.empty(len(by_name), dtype=np.intp)\n        index[by_name] = np.arange(len(by_name), dtype=np.intp)")]),
     ('rows picked by position instead of by mask', [(FI, "table_subset = input_table[subset]", "table_subset = input_table[np.flatnonzero(subset)]")]),
     ('additional column built by a comprehension', [(FI, "            table_sorted[par] = np.zeros(len(table_sorted), dtype=float)\n            for i, name in enumerate(table_sorted['MODEL_NAME']):\n                table_sorted[par][i] = additional[par][name.strip()]\n", "            table_sorted[par] = np.array([additional[par][name.strip()] for name in table_sorted['MODEL_NAME']], dtype=float)\n")]),
